@@ -2634,3 +2634,30 @@ twin('C10', 'ds-loadserial-from-loadbefore-checked', DSPY,
             if r is None or r[1] != serial:
                 raise ZODB.POSException.POSKeyError(oid, serial)
             return r[0]''')
+
+# ---- F66 / F67 ---------------------------------------------------------------
+breaker('C17', 'copy-begin-outside-abort-block', 'C17.R14', BSPY, 'copy',
+        '''        try:
+            # (tpc_begin can fail with the commit lock already taken)
+            dest.tpc_begin(transaction, tid, transaction.status)
+            for r in transaction:''',
+        '''        dest.tpc_begin(transaction, tid, transaction.status)
+        try:
+            for r in transaction:''')
+breaker('C11', 'abort-keeps-pending-import', 'C11.R10', CONNPY,
+        'Connection.abort',
+        '''        if self._import:
+            # An import whose savepoint failed is still pending: forget it,
+            # as tpc_abort does.
+            self._import = None
+''',
+        '''''')
+twin('C11', 'abort-forgets-import-unconditionally', CONNPY,
+     'Connection.abort',
+     '''        if self._import:
+            # An import whose savepoint failed is still pending: forget it,
+            # as tpc_abort does.
+            self._import = None
+''',
+     '''        self._import = None
+''')
